@@ -35,6 +35,13 @@ abbrev DN := List Attr
 /-- public-key identity (a key pair); the symbolic counterpart of the 65 key bytes -/
 abbrev KeyId := Nat
 
+/-- one DER `Extension` inside a `future-extensions` blob: an OID this verifier does not know and its
+`critical` flag (absent = explicit FALSE = `false`) -/
+structure FutExt where
+  oid : Nat
+  critical : Bool
+deriving DecidableEq, Repr, Inhabited
+
 structure Cert where
   subject : DN
   issuer : DN
@@ -48,12 +55,27 @@ structure Cert where
   eku : Option (List Nat)
   skid : Option Nat
   akid : Option Nat
-  /-- some `future-extensions` blob carries a DER extension with `critical = TRUE` -/
-  critFuture : Bool
+  /-- the `future-extensions` TLV elements in order (how several unknown X.509 extensions are carried), each a
+  DER blob of sub-extensions `(oid, critical)` -/
+  futureExts : List (List FutExt)
   pubKey : KeyId
   /-- symbolic signature: the key under which the signature over this record's TBS verifies -/
   sigBy : Option KeyId
 deriving DecidableEq, Repr, Inhabited
+
+/-- `der_blob_has_critical_extension`: walk the sub-extensions of one blob, `true` on the first critical one -/
+def blobHasCritical : List FutExt → Bool
+  | [] => false
+  | e :: r => if e.critical then true else blobHasCritical r
+
+/-- `CertRef::has_critical_future_extension`: loop over ALL `future-extensions` elements of the certificate,
+`true` as soon as one of them carries a critical sub-extension -/
+def hasCriticalFutureExtension : List (List FutExt) → Bool
+  | [] => false
+  | el :: r => if blobHasCritical el then true else hasCriticalFutureExtension r
+
+/-- the flag `verify_usage` looks at -/
+def Cert.critFuture (c : Cert) : Bool := hasCriticalFutureExtension c.futureExts
 
 /-- small enum of `ErrorCode`s produced on these paths -/
 inductive Err where
@@ -365,6 +387,12 @@ identifier of the fabric it is used for.  Installing credentials additionally re
 leaf's public key to be the one the node generated for this request and the fabric not to exist
 already." -/
 
+/-- "no unknown critical extension is present": none of the sub-extensions of none of the `future-extensions`
+elements is marked critical (this verifier knows none of them) -/
+def NoUnknownCritical (c : Cert) : Prop := ∀ el ∈ c.futureExts, ∀ e ∈ el, e.critical = false
+
+instance (c : Cert) : Decidable (NoUnknownCritical c) := by unfold NoUnknownCritical; infer_instance
+
 /-- the certification path, leaf first, trusted root last -/
 def pathOf (noc : Cert) (icac : Option Cert) (root : Cert) : List Cert :=
   noc :: (icac.toList ++ [root])
@@ -399,7 +427,7 @@ def ChainValid (t : Time) (root noc : Cert) (icac : Option Cert) : Prop :=
   -- every certificate is issued by the next one, the root by itself
   (∀ pr ∈ (pathOf noc icac root).zip ((pathOf noc icac root).tail ++ [root]), Issues pr.2 pr.1) ∧
   (∀ c ∈ pathOf noc icac root, Covers t c) ∧
-  (∀ c ∈ pathOf noc icac root, c.critFuture = false) ∧
+  (∀ c ∈ pathOf noc icac root, NoUnknownCritical c) ∧
   LeafProfile noc ∧
   (∀ pr ∈ (pathOf noc icac root).tail.zipIdx, AuthorityProfile pr.1 pr.2) ∧
   (nodeIdOf noc.subject).isSome = true
@@ -428,7 +456,7 @@ def UpdateValid (t : Time) (fabric : FabricView) (csrKey : KeyId) (noc : Cert) (
 
 /-- a stand-alone root is acceptable as a trusted root -/
 def RootValid (t : Time) (root : Cert) : Prop :=
-  Issues root root ∧ Covers t root ∧ root.critFuture = false ∧
+  Issues root root ∧ Covers t root ∧ NoUnknownCritical root ∧
   (AuthorityProfile root 0 ∨ LeafProfile root) ∧ ∀ n ∈ root.bc.bind Prod.snd, n ≤ 1
 
 /-- contract of the bare `CertVerifier` on an arbitrary list (leaf first): position `i` holds a
@@ -436,7 +464,7 @@ leaf profile (only at 0) or an authority profile with `i - 1` intermediates belo
 def PathValid (t : Time) (p : List Cert) : Prop :=
   p ≠ [] ∧
   (∀ pr ∈ p.zip (p.tail ++ p.getLast?.toList), Issues pr.2 pr.1) ∧
-  (∀ c ∈ p, Covers t c ∧ c.critFuture = false) ∧
+  (∀ c ∈ p, Covers t c ∧ NoUnknownCritical c) ∧
   ∀ pr ∈ p.zipIdx, (pr.2 = 0 ∧ LeafProfile pr.1) ∨ AuthorityProfile pr.1 (pr.2 - 1)
 
 instance (issuer c : Cert) : Decidable (Issues issuer c) := by unfold Issues; infer_instance
